@@ -394,9 +394,10 @@ class BaseSched:
 class RandomSched(BaseSched):
     """seeded random environment; `weights` biases the step kinds"""
 
-    def __init__(self, rng, budget=60, weights=None, p_step=0.45, term_p=0.15):
+    def __init__(self, rng, budget=60, weights=None, p_step=0.45, term_p=0.15, cap=None):
         super().__init__()
         self.rng = rng
+        self.cap = cap          # at most `cap` clients present at once (None: unrestricted)
         self.budget = budget
         self.p_step = p_step
         self.allow_term = rng.random() < term_p
@@ -419,6 +420,10 @@ class RandomSched(BaseSched):
             return None
         while rng.random() < self.p_step:
             en = [s for s in sim.enabled() if (s[0] != "term" or self.allow_term)]
+            if self.cap is not None:
+                present = sum(1 for x in sim.net.conns.values() if x.phase != "fresh" and not x.closed)
+                if present >= self.cap:
+                    en = [s for s in en if s[0] != "connect"]
             ws = [self.w.get(s[0], 1) for s in en]
             if not en or sum(ws) <= 0:
                 break
